@@ -135,6 +135,9 @@ macroequal(struct macro *m1, struct macro *m2)
 			return false;
 		if (t1->lit && strcmp(t1->lit, t2->lit) != 0)
 			return false;
+		/* white-space separation must agree, except before the first token */
+		if (t1 != m1->token && t1->space != t2->space)
+			return false;
 	}
 	return true;
 }
